@@ -767,7 +767,7 @@ def split_laziness(rep, L):
             raise io.UnsupportedOperation("fileno")
 
     validator = lib_["util"].AudioEnergyValidator(50, 2, 1)
-    kinds = ("src", "reader", "rec_reader", "hop", "hop_tail", "rec_hop_tail", "stdin")
+    kinds = ("src", "reader", "rec_reader", "hop", "hop_tail", "rec_hop_tail", "stdin", "region_start")
     rep.cov["laziness_inputs"] = list(kinds)
     for (mn, mx, ms, mode) in [(1, 1, 0, 0), (1, 3, 0, 0), (2, 3, 1, 0), (1, 3, 2, 0), (2, 4, 1, 4), (1, 2, 1, 2), (3, 3, 0, 6),
                                (2, 5, 3, 4), (1, 4, 3, 0), (2, 2, 1, 0), (1, 5, 0, 4), (3, 5, 2, 2)]:
@@ -790,7 +790,24 @@ def split_laziness(rep, L):
                 rep.add("evaluations")
                 old_stdin = _sys.stdin
                 try:
-                    if kind == "stdin":
+                    if kind == "region_start":
+                        # a region that is itself a detection (it carries a start), split by its own method: how far the
+                        # analysis has gone is seen through a counting validator (one call per window)
+                        class _Pulled:
+                            samples = 0
+                            nones = 1
+
+                        src = _Pulled()
+
+                        class _CountingValidator(lib_["util"].DataValidator):
+                            def is_valid(self, w, _v=validator, _s=src):
+                                _s.samples += len(w) // 2
+                                _s.nones = 0
+                                return _v.is_valid(w)
+
+                        kw_r = {k_: v_ for k_, v_ in kw.items() if k_ != "energy_threshold"}
+                        gen = lib_["AR"](data, 20, 2, 1, 2.5).split(analysis_window=0.1, validator=_CountingValidator(), **kw_r)
+                    elif kind == "stdin":
                         src = CountingStdin(data)
                         _sys.stdin = src
                         gen = lib_["core"].split("-", analysis_window=0.1, sampling_rate=20, sample_width=2, channels=1, **kw)
@@ -835,6 +852,8 @@ def split_laziness(rep, L):
                         msg = "%d regions, the model has %d" % (j, len(exp))
                 finally:
                     _sys.stdin = old_stdin
+                if kind == "region_start":
+                    src.nones = 1  # (end-of-stream requests cannot be seen from a validator)
                 if msg is None and src.nones != 1:
                     msg = "end of stream requested %d times from the input" % src.nones
                 if exp:
